@@ -398,6 +398,8 @@ pub fn cfgprod(args: &Args) -> Report {
         (0..120u8).map(|i| vec![b'a' + i % 26, b'0' + i % 10, i]).collect(),
     ];
     let big: Vec<u8> = vec![b'~'; 70_000];   // beyond any size threshold, no byte of any pattern
+    // the haystack of the span cases (spans must be valid for it: start <= end + 1 <= len + 1)
+    const ABCD: &[u8] = b"abcd";
     let mut hays: Vec<&[u8]> = if thorough { vec![b"", b"a", b"abcd", b"xxabcxx", b"zzzzzz", b"abababab"] } else { vec![b"", b"abcd", b"zzab"] };
     hays.push(&big);
     let mut items = vec![];
@@ -423,7 +425,7 @@ pub fn cfgprod(args: &Args) -> Report {
         for api in APIS {
             for anch in [false, true] {
                 // the rule does not look at the span: whole haystack, an empty span, an exhausted span (start = end + 1)
-                for (hay, span) in hays.iter().map(|h| (h, None)).chain([(&hays[1], Some((2usize, 2usize))), (&hays[1], Some((1, 0))), (&hays[1], Some((4, 3)))]) {
+                for (hay, span) in hays.iter().map(|h| (h, None)).chain([(&ABCD, Some((2usize, 2usize))), (&ABCD, Some((1, 0))), (&ABCD, Some((4, 3)))]) {
                     let got = call_top(&b, api, hay, anch, pats.len(), span);
                     let rej = rejected(api, *mk, *sk, anch, has_empty);
                     let fallible = api.starts_with("try_");
